@@ -190,7 +190,7 @@ Section Counter.
     - destruct (om_kvs_eqb g g0) eqn:E.
       + cbn [negb andb bind Bool.eqb]. apply negb_true_iff in Hcond.
         cbn [os_labels om_cps_of bind]. change (sort_kv (sort_kv (s_labels s))) with g.
-        rewrite Hcond. cbn [negb orb om_ts_eqb]. reflexivity.
+        cbn [negb orb om_ts_eqb]. rewrite Hcond. cbn [negb orb]. reflexivity.
       + cbn [negb andb]. apply negb_true_iff in Hcond. cbn [andb] in Hcond. rewrite Hcond.
         cbn [bind os_labels om_cps_of]. change (sort_kv (sort_kv (s_labels s))) with g.
         reflexivity.
